@@ -3,7 +3,7 @@
     M = ChunkModel.v (hchunks.c index arithmetic) and MCacheModel.v (mcache.c), both over gen/Gen_Chunk.v, which is
     regenerated from the C sources on every run. *)
 From Coq Require Import ZArith List Bool String Lia.
-Require Import H4.gen.Gen_Chunk H4.ChunkModel H4.MCacheModel H4.HChunkModel H4.ChunkProofs H4.MCacheProofs H4.HChunkProofs H4.ExtEltModel H4.ExtEltProofs.
+Require Import H4.gen.Gen_Chunk H4.ChunkModel H4.MCacheModel H4.HChunkModel H4.ChunkProofs H4.MCacheProofs H4.HChunkProofs H4.ExtEltModel H4.ExtEltProofs H4.HAidModel H4.HAidProofs H4.ChunkTabModel H4.ChunkTabProofs.
 Import ListNotations.
 Local Open Scope Z_scope.
 
@@ -78,7 +78,8 @@ Theorem chunked_refines_stream : forall nt dd, geometry_ok nt dd ->
        Z.of_nat (List.length out) = r * nt /\
        forall i, 0 <= i < r * nt -> znth out i = stream_of nt dd (view (fst st) (snd st)) (e * nt + i)) /\
   (forall (v : Z -> page) (fe : list Z),
-     (forall cn off b, (nt | off) -> 0 <= b < nt -> znth (v cn) (off + b) = znth fe b) ->
+     (forall cn off b, 0 <= cn < npg dd -> 0 <= off -> off + nt <= csize nt dd -> (nt | off) -> 0 <= b < nt ->
+        znth (v cn) (off + b) = znth fe b) ->
      forall q, 0 <= q < total dd * nt -> stream_of nt dd v q = znth fe (q mod nt)).
 Proof. exact chunked_refines_stream_lemma2. Qed.
 Print Assumptions chunked_refines_stream.
@@ -149,6 +150,57 @@ Proof.
 Qed.
 Print Assumptions call_skeletons_as_modelled.
 
+(** access_ids_see_stream.  Several access ids attached to one chunked element at the same time (the chunk indices,
+    the chunk table and the cache are shared by all of them, only the position is per access id; HAidModel.v): for
+    EVERY interleaved history of Hseek / Hread / Hwrite over any number of access ids, inside the element, every read
+    returns exactly the bytes of the one byte stream at that access id's OWN position, every write overwrites exactly
+    those, positions advance per access id -- i.e. the run equals the run of the specification "one stream, one
+    position per id" ([sp_run]), for every geometry, cache size and initial page map, and whatever the shared indices
+    [ix0] held before.  This is what recomputing the indices from access_rec->posn at the start of HMCPread/HMCPwrite
+    (pinned by call_skeletons_as_modelled) buys; see [stale_shared_indices_are_wrong] for the model without it. *)
+Theorem access_ids_see_stream : forall nt dd, geometry_ok nt dd ->
+  forall maxc (s0 : fstore) ix0 naids os,
+    pages_ok nt dd s0 ->
+    aops_ok nt (total dd) (stream_of nt dd s0) (repeat 0 naids) os ->
+    exists x', aop_run nt dd true (mkae (mcache_open maxc (npg dd), s0) ix0 (repeat 0 naids)) os =
+               Some (x', snd (sp_run nt (stream_of nt dd s0) (repeat 0 naids) os)) /\
+      forall q, 0 <= q < total dd * nt ->
+        stream_of nt dd (view (fst (ae_st x')) (snd (ae_st x'))) q =
+        fst (fst (sp_run nt (stream_of nt dd s0) (repeat 0 naids) os)) q.
+Proof. exact aid_refines_stream_lemma. Qed.
+Print Assumptions access_ids_see_stream.
+
+(** chunk_table_implements_store.  The backing store the cache model works on is implemented by the chunk table
+    (TBBT of chunk records + HMCPchunkread/HMCPchunkwrite; tag tests, new tag and fill count regenerated from the
+    source): on every well-formed table page-in never fails and is the store's read -- the fill page for a chunk
+    without record or with a record never written (DFTAG_NULL) --, and page-out of a chunk whose record was created
+    first, as HMCPwrite/HMCwriteChunk do before asking the cache for the page (tbbtdfind/tbbtdins pinned in
+    [call_skeletons]), succeeds, keeps the table well-formed and is the store's write: exactly that chunk changes.
+    The fill page built by HDmemfill repeats the fill element, which is the hypothesis of the last clause of
+    [chunked_refines_stream]: unwritten chunks read as the fill value. *)
+Theorem chunk_table_implements_store : forall fillpg t n pg, tab_wf t ->
+  fs_in (tab_store fillpg t) n = ct_pagein fillpg t n /\
+  exists t', ct_pageout (ct_ensure t n) n pg = Some t' /\ tab_wf t' /\
+    forall k, fs_out (tab_store fillpg t) n pg = Some (fun j => if j =? n then pg else tab_store fillpg t j) /\
+              tab_store fillpg t' k = (fun j => if j =? n then pg else tab_store fillpg t j) k.
+Proof. exact chunk_table_implements_store_lemma. Qed.
+Print Assumptions chunk_table_implements_store.
+
+Theorem unwritten_chunks_are_fill : forall fillpg t n, tab_wf t ->
+  ct_pagein fillpg t n = Some (tab_store fillpg t n) /\
+  (find_rec t n = None -> tab_store fillpg t n = fillpg) /\
+  (forall r, find_rec t n = Some r -> cr_tag r = DFTAG_NULL -> tab_store fillpg t n = fillpg) /\
+  (forall r, find_rec t n = Some r -> cr_tag r = DFTAG_CHUNK -> tab_store fillpg t n = cr_page r).
+Proof. exact pagein_total. Qed.
+Print Assumptions unwritten_chunks_are_fill.
+
+Theorem fill_page_is_fill_value : forall chunk_size nt (fe : list Z) off b,
+  1 <= nt -> Z.of_nat (List.length fe) = nt -> 0 <= chunk_size ->
+  0 <= off -> off + nt <= chunk_size * nt -> (nt | off) -> 0 <= b < nt ->
+  nth (Z.to_nat (off + b)) (fill_page chunk_size nt fe) 0 = nth (Z.to_nat b) fe 0.
+Proof. exact fill_page_repeats. Qed.
+Print Assumptions fill_page_is_fill_value.
+
 (** fill_lookup_uniform.  The chunked layout decides "this image has a user-defined fill value" exactly as the
     contiguous read and write paths do (regenerated condition texts): index-or-FAIL compared with FAIL. *)
 Theorem fill_lookup_uniform_across_layouts :
@@ -212,6 +264,52 @@ Example external_write_near_the_end :
   x_length (fst (hxp_write x (fun _ => 0) [1; 2])) = 12 /\ snd (hxp_write x (fun _ => 0) [1; 2]) 309 = 2 /\
   snd (hxp_write x (fun _ => 0) [1; 2]) 299 = 0.
 Proof. vm_compute. repeat split; reflexivity. Qed.
+
+(** two access ids on a 5x7 dataset of 2-byte elements in 2x3 chunks, cache of one page: id 0 writes, seeks; id 1 seeks
+    elsewhere; id 0 reads without a new seek *)
+Example two_access_ids_history :
+  let dd := [mk_dim 5 2; mk_dim 7 3] in
+  let s0 : fstore := fun _ => repeat 9 12 in
+  let os := [AWrite 0 [1;2;3;4;5;6]; ASeek 0 1; ASeek 1 20; ARead 1 2; ARead 0 3; AWrite 1 [7;8]; ARead 0 1] in
+  aops_ok 2 (total dd) (stream_of 2 dd s0) [0; 0] os /\
+  snd (sp_run 2 (stream_of 2 dd s0) [0; 0] os) = [[]; []; []; [9;9;9;9]; [3;4;5;6;9;9]; []; [9;9]] /\
+  (match aop_run 2 dd true (mkae (mcache_open 1 (npg dd), s0) ([], []) [0; 0]) os with
+   | Some (_, outs) => outs = [[]; []; []; [9;9;9;9]; [3;4;5;6;9;9]; []; [9;9]]
+   | None => False end).
+Proof.
+  cbv zeta. split; [|split].
+  - simpl. repeat split; try lia; try (exists 3; split; [reflexivity|vm_compute; congruence]);
+      try (exists 1; split; [reflexivity|vm_compute; congruence]); vm_compute; congruence.
+  - vm_compute. reflexivity.
+  - vm_compute. reflexivity.
+Qed.
+
+(** the same history through a model that trusts the shared indices (recompute = false): id 0's read after id 1's seek
+    returns the bytes at id 1's position -- the behaviour of the seeded change C04-8 *)
+Example stale_shared_indices_are_wrong :
+  let dd := [mk_dim 5 2; mk_dim 7 3] in
+  let s0 : fstore := fun _ => repeat 9 12 in
+  let os := [AWrite 0 [1;2;3;4;5;6]; ASeek 0 1; ASeek 1 20; ARead 0 2] in
+  (match aop_run 2 dd true (mkae (mcache_open 1 (npg dd), s0) ([], []) [0; 0]) os with
+   | Some (_, outs) => nth 3 outs [] = [3;4;5;6] | None => False end) /\
+  (match aop_run 2 dd false (mkae (mcache_open 1 (npg dd), s0) ([], []) [0; 0]) os with
+   | Some (_, outs) => nth 3 outs [] <> [3;4;5;6] | None => True end).
+Proof. cbv zeta. split; vm_compute; [reflexivity | congruence]. Qed.
+
+Example chunk_table_example :
+  let fe := [7; 8] in let fillpg := fill_page 6 2 fe in
+  let t0 : ctab := [] in
+  tab_wf t0 /\ fillpg = [7;8;7;8;7;8;7;8;7;8;7;8] /\ ct_pagein fillpg t0 4 = Some fillpg /\
+  (match ct_pageout (ct_ensure t0 4) 4 [1;2;3;4;5;6;7;8;9;10;11;12] with
+   | Some t1 => tab_wf t1 /\ ct_pagein fillpg t1 4 = Some [1;2;3;4;5;6;7;8;9;10;11;12] /\ ct_pagein fillpg t1 3 = Some fillpg /\
+                ct_pagein fillpg (ct_ensure t1 3) 3 = Some fillpg
+   | None => False end) /\
+  ct_pageout t0 4 [1] = None.
+Proof.
+  cbv zeta. split; [constructor|]. split; [vm_compute; reflexivity|]. split; [vm_compute; reflexivity|]. split.
+  - vm_compute. split; [constructor; [right; reflexivity|constructor]|]. repeat split; reflexivity.
+  - reflexivity.
+Qed.
 
 Example stream_example :
   chunk_read_elem 1 [mk_dim 5 2; mk_dim 7 3]
